@@ -341,10 +341,12 @@ func c13Variants(c *core.Ctx) {
 		if c.Tier != "thorough" && len(vf) == 3 && fi%4 != 0 {
 			continue
 		}
-		for _, withRef := range []bool{false, true} {
+		// no record named like the reference; one, first in the file; two (the reference and, at the end, a second record
+		// of that name carrying mutations): the per-sequence writer leaves out every such record, so the table counts none
+		for _, refCopies := range []int{0, 1, 2} {
 			var feed []eval.Value
 			idx := int64(0)
-			if withRef {
+			if refCopies >= 1 {
 				feed = append(feed, mkAnno(c, "ref", idx))
 				idx++
 			}
@@ -354,6 +356,10 @@ func c13Variants(c *core.Ctx) {
 					vs = append(vs, U[k])
 				}
 				feed = append(feed, mkAnno(c, fmt.Sprintf("q%d", idx), idx, vs...))
+				idx++
+			}
+			if refCopies == 2 {
+				feed = append(feed, mkAnno(c, "ref", idx, U["nucT"], U["del"]))
 				idx++
 			}
 			for _, win := range [][2]int64{{-1, -1}, {3, 3}} {
@@ -381,7 +387,7 @@ func c13Variants(c *core.Ctx) {
 							continue
 						}
 						if d := compareAggregate(lines, want, posVar); d != "" {
-							bad = append(bad, fmt.Sprintf("lists %v ref-record=%v window=%v append-snps=%v threshold=%v: %s", vf, withRef, win, app, thr, d))
+							bad = append(bad, fmt.Sprintf("lists %v records-named-like-the-reference=%d window=%v append-snps=%v threshold=%v: %s", vf, refCopies, win, app, thr, d))
 						}
 					}
 				}
